@@ -205,6 +205,14 @@ def src_hashes(funcs):
     return h
 
 
+def bounds_text(conf, tier):
+    """bounds of the property's own families + the cross-cutting families and the tier rule (DESIGN.md section 4)"""
+    b = conf.get("bounds_" + tier, conf.get("bounds", ""))
+    if b == "same":
+        b = conf.get("bounds_quick", "")
+    return b + " || " + propconf.COMMON_BOUNDS[tier]
+
+
 def library_blocks_total():
     """number of basic blocks of package ecs (non-test, harness overlay excluded) in the current tree"""
     try:
@@ -440,7 +448,7 @@ def main():
         "source_hashes": src_hashes(funcs),
         "library_basic_blocks_executed": len(blocks),
         "library_basic_blocks_total": library_blocks_total(),
-        "bounds": conf.get("bounds_" + tier, conf.get("bounds", "")),
+        "bounds": bounds_text(conf, tier),
         "outside_claim": conf.get("outside", ""),
         "stubs": propconf.STUBS,
         "samples": samples[:12] or [{"note": "no non-trivial obligation"}],
@@ -458,6 +466,8 @@ def main():
           "wall_s": round(wall, 2), "violations": len(seen_sig)}
     with open(evidence_path, "w") as f:
         json.dump(ev, f, indent=1)
+    if REPO == "/repo":  # keep the last evidence of each tier next to <id>.json (= the last run of either tier)
+        shutil.copyfile(evidence_path, os.path.join(VERIF, "evidence", "%s.%s.json" % (pid, tier)))
     if REPO == "/repo":  # block coverage of this check (union over harnesses and tag sets), input of tools/coverage.py
         os.makedirs(os.path.join(VERIF, "evidence", "coverage"), exist_ok=True)
         with open(os.path.join(VERIF, "evidence", "coverage", "%s.%s.txt" % (pid, tier)), "w") as f:
